@@ -5,7 +5,7 @@
 EXTENDS C07_cases, SequencesExt, Json
 
 SeedSeq == SetToSeq(Seeds)
-CasesOfSeed(sd) == LET vv == SetToSeq(VecsOf(sd)) IN [i \in 1..Len(vv) |-> CaseOf(sd.pv, sd.f, vv[i])]
+CasesOfSeed(sd) == LET vv == SetToSeq(VecsOf(sd)) IN [i \in 1..Len(vv) |-> CaseFor(sd, vv[i])]
 
 RECURSIVE ConcatAll(_, _)
 ConcatAll(ss, i) == IF i > Len(ss) THEN << >> ELSE CasesOfSeed(ss[i]) \o ConcatAll(ss, i + 1)
